@@ -77,6 +77,7 @@ type eagrCfg struct {
 	noProposalTo []bool       // nodes that are cut off from period-0 proposal payloads (nil: none)
 	entropy      uint64       // RandomEntropy of timeout events
 	diff         *eagrDiffer  // C07 differential hook (nil: off)
+	catchupDelay int8         // virtual-time mode: regular ticks a node must be behind before its ledger catches up
 	virtualTime  bool         // deadlines are compared with a virtual clock (DFS); false: Since()=0
 	ordered      bool         // delivery order (sequence numbers) is part of the canonical state (lock-step explorer)
 	trackValues  bool         // keep the set of proposal values seen on the network (adversary alphabet)
@@ -121,6 +122,8 @@ type eagrNode struct {
 	// restored attest action persists (Service.persistRouter/Status/Actions are not initialised on
 	// the restore path) and therefore started a fresh player for a round it had already voted in.
 	lostState bool
+	down      bool       // stopped for good (node-down deviation); also passive
+	behind    int8       // virtual-time mode: regular ticks during which another node already held this node's next block
 	lostBlock *eagrEntry // block the ledger lost in a crash (re-delivered by the catch-up event)
 
 	// C07: the (restored, reference) image pair as it was after the previous event of this node; the
@@ -147,11 +150,15 @@ const (
 	eagrDevSlow // every in-flight copy of one proposal payload is held back past the next 1 or 2 timeouts
 	eagrDevCut  // votes of one (period, step) reach only one node / do not cross the cut {node}|rest
 	eagrDevCrashLose // crash-restart in which the node's ledger lost its last block (re-delivered later)
+	eagrDevFateSoftLate // the soft votes of one (round, period) arrive late everywhere (held past 1 or 2 timeouts)
+	eagrDevFateSplit    // the votes of one (round, period, step) reach one node now, a subset of the others two timeouts later, the rest never
+	eagrDevFateMiss     // the votes of one (round, period, step) reach one node two timeouts late or never, everybody else now
+	eagrDevDown         // one node stops for good (what it already sent is still delivered)
 	eagrDevOff  // one node is cut off from the network (both directions) for the next d delivery sub-phases
 	eagrNDev
 )
 
-var eagrDevNames = [eagrNDev]string{"drop", "hold-past-timeout", "reorder", "dup", "crash", "byz", "skew", "fast", "slow-payload", "vote-cut", "crash-with-ledger-rollback", "node-offline"}
+var eagrDevNames = [eagrNDev]string{"drop", "hold-past-timeout", "reorder", "dup", "crash", "byz", "skew", "fast", "slow-payload", "vote-cut", "crash-with-ledger-rollback", "soft-votes-late", "votes-split", "votes-miss-one-node", "node-down", "node-offline"}
 
 type eagrDevs [eagrNDev]int8
 
@@ -177,6 +184,19 @@ type eagrFlight struct {
 	seq    int
 	parked bool // lock-step explorer: held back until after the next tick
 	ticks  int8 // parked: number of ticks it still has to sit out (0/1: released at the next tick)
+}
+
+// eagrFate is a per-destination delivery rule for the votes of one (round, period, step): each
+// destination gets them now (0), late (held past `late[dst]` further timeouts) or never (-1).
+type eagrFate struct {
+	round  basics.Round
+	period period
+	step   step
+	dst    [8]int8
+}
+
+func (f eagrFate) matches(m *eagrMsg) bool {
+	return m.tag == protocol.AgreementVoteTag && m.vote.R.Round == f.round && m.vote.R.Period == f.period && m.vote.R.Step == f.step
 }
 
 // eagrCut is a selective-delivery deviation: votes of (period, step) of the explored round either
@@ -211,6 +231,7 @@ type eagrSys struct {
 	values  map[proposalValue]bool
 	barrier int // lock-step explorer: flight entries with seq <= barrier are eligible in this sub-phase
 	cut           eagrCut
+	fates         []eagrFate
 	offNode       int // node-offline deviation: node (valid while offLeft > 0)
 	offLeft       int // delivery sub-phases the node still stays cut off
 	syncPeriod    int // C05: highest period of any node when the last deviation was taken (ghost)
@@ -308,7 +329,7 @@ func (n *eagrNode) startFresh(s *eagrSys, out *eagrOut) {
 // clone returns an independent copy of the node (encode-independent deep copy of the state machine).
 func (n *eagrNode) clone() *eagrNode {
 	c := &eagrNode{id: n.id, led: n.led.clone(), disk: n.disk, zero: n.zero, passive: n.passive,
-		persistFresh: n.persistFresh, persistA: n.persistA, crashes: n.crashes, lostState: n.lostState, prevPair: n.prevPair, lostBlock: n.lostBlock}
+		persistFresh: n.persistFresh, persistA: n.persistA, crashes: n.crashes, lostState: n.lostState, prevPair: n.prevPair, lostBlock: n.lostBlock, down: n.down, behind: n.behind}
 	c.p, c.rr = eagrCopyState(&n.p, &n.rr)
 	c.loop = append([]eagrLoopItem(nil), n.loop...)
 	c.ver = append([]cryptoAction(nil), n.ver...)
@@ -327,7 +348,7 @@ func (n *eagrNode) clone() *eagrNode {
 
 // clone copies the system; nodes are shared (copy-on-write: call own(j) before mutating node j).
 func (s *eagrSys) clone() *eagrSys {
-	c := &eagrSys{cfg: s.cfg, now: s.now, seq: s.seq, barrier: s.barrier, devs: s.devs, subStart: s.subStart, syncPeriod: s.syncPeriod, lastDevPeriod: s.lastDevPeriod, cut: s.cut, offNode: s.offNode, offLeft: s.offLeft}
+	c := &eagrSys{cfg: s.cfg, now: s.now, seq: s.seq, barrier: s.barrier, devs: s.devs, subStart: s.subStart, syncPeriod: s.syncPeriod, lastDevPeriod: s.lastDevPeriod, cut: s.cut, offNode: s.offNode, offLeft: s.offLeft, fates: s.fates}
 	c.nodes = append([]*eagrNode(nil), s.nodes...)
 	c.flight = append([]eagrFlight(nil), s.flight...)
 	if s.sent != nil {
@@ -788,8 +809,20 @@ func (s *eagrSys) enqueue(src int, m *eagrMsg, dst int) {
 			}
 		}
 	}
+	fl := eagrFlight{m: m, dst: dst, src: src}
+	for _, f := range s.fates {
+		if f.matches(m) {
+			switch k := f.dst[dst]; {
+			case k < 0:
+				return
+			case k > 0:
+				fl.parked, fl.ticks = true, k
+			}
+		}
+	}
 	s.seq++
-	s.flight = append(s.flight, eagrFlight{m: m, dst: dst, src: src, seq: s.seq})
+	fl.seq = s.seq
+	s.flight = append(s.flight, fl)
 }
 
 // deliver hands message m (from src) to the node as demux.next would.
@@ -998,6 +1031,9 @@ func (n *eagrNode) key0(b []byte) []byte {
 		// a passive node takes no further part (it left the explored rounds/periods): only what it
 		// committed can still matter
 		b = append(b, 'P')
+		if n.down {
+			b = append(b, 'D')
+		}
 		return n.led.digestKey(b)
 	}
 	if n.relClock {
@@ -1023,7 +1059,7 @@ func (n *eagrNode) key0(b []byte) []byte {
 	if n.lostBlock != nil {
 		fl |= 8
 	}
-	b = append(b, fl, byte(len(n.loop)), byte(len(n.ver)), byte(n.crashes))
+	b = append(b, fl, byte(len(n.loop)), byte(len(n.ver)), byte(n.crashes), byte(n.behind))
 	for _, it := range n.loop {
 		// pending loopback items (only present when the loopback queue is not atomic)
 		if it.persist {
@@ -1104,6 +1140,12 @@ func (s *eagrSys) key() [16]byte {
 		}
 		if s.offLeft > 0 {
 			b = append(b, 'O', byte(s.offNode), byte(s.offLeft))
+		}
+		for _, f := range s.fates {
+			b = append(b, 'F', byte(f.round), byte(f.period), byte(f.step))
+			for _, x := range f.dst {
+				b = append(b, byte(x))
+			}
 		}
 		if s.cut.active {
 			o := byte(0)
